@@ -85,10 +85,14 @@ func (g *Gen) Case(i int) Case {
 		hdr += "(" + strings.Join(vars, ", ") + ")"
 	}
 	// operation-level directives the schema declares for this kind of operation (they wrap the whole execution)
-	if kind != "subscription" && (g.profile == "c01" || g.profile == "c04" || g.profile == "c06") {
+	// (profile "sub": the SUBSCRIPTION-location directives around the creation of the stream, _subscriptionMiddleware)
+	if (kind != "subscription" && (g.profile == "c01" || g.profile == "c04" || g.profile == "c06")) || (kind == "subscription" && g.profile == "sub") {
 		loc := ast.LocationQuery
 		if kind == "mutation" {
 			loc = ast.LocationMutation
+		}
+		if kind == "subscription" {
+			loc = ast.LocationSubscription
 		}
 		var names []string
 		for n, d := range g.s.Directives {
